@@ -1696,6 +1696,138 @@ theorem glue_free_expr (e : GExpr) (hs : inSubset e = true) (hp : exprParenFree 
   simpa [glueFree, glueFreeFrom] using this
 
 
+/-! ## from the per-item verdict of the tie to the hypotheses of the theorems
+
+The tie evaluates `itemParenFree` on every item the compiler produced.  That verdict gives `exprParenFree` for every
+expression a statement of the item holds (`itemRoots`), i.e. the hypothesis of `print_expr_roundtrip`,
+`glue_free_expr` and `no_break_inserts_semicolon`. -/
+
+mutual
+theorem stmtRoots_parenFree : ∀ s : GStmt, stmtParenFree s = true → ∀ e ∈ stmtRoots s, exprParenFree e = true
+  | .expr e, h => by simpa [stmtRoots, stmtParenFree] using h
+  | .go c, h => by simpa [stmtRoots, stmtParenFree] using h
+  | .varDecl _ _ (some v), h => by simpa [stmtRoots, stmtParenFree] using h
+  | .varDecl _ _ none, _ => by simp [stmtRoots]
+  | .assign _ v, h => by simpa [stmtRoots, stmtParenFree] using h
+  | .fieldAssign t v, h => by
+      simp only [stmtParenFree, Bool.and_eq_true] at h
+      simp [stmtRoots, h.1, h.2]
+  | .ptrAssign p v, h => by
+      simp only [stmtParenFree, Bool.and_eq_true] at h
+      simp [stmtRoots, h.1.2, h.2]
+  | .indexAssign a i v, h => by
+      simp only [stmtParenFree, Bool.and_eq_true] at h
+      simp [stmtRoots, h.1.1.2, h.1.2, h.2]
+  | .ret none, _ => by simp [stmtRoots]
+  | .ret (some e), h => by
+      cases e <;> first | (simp [stmtRoots]; done) | (simpa [stmtRoots, stmtParenFree] using h)
+  | .loop body, h => by
+      simp only [stmtParenFree] at h
+      simpa [stmtRoots] using stmtsRoots_parenFree body h
+  | .brk, _ => by simp [stmtRoots]
+  | .ite c t none, h => by
+      simp only [stmtParenFree, Bool.and_eq_true] at h
+      have := stmtsRoots_parenFree t h.2
+      intro e he; simp only [stmtRoots, List.mem_cons] at he
+      rcases he with rfl | he
+      · exact h.1.1
+      · exact this e he
+  | .ite c t (some eb), h => by
+      simp only [stmtParenFree, Bool.and_eq_true] at h
+      have h1 := stmtsRoots_parenFree t h.1.2
+      have h2 := stmtsRoots_parenFree eb h.2
+      intro e he; simp only [stmtRoots, List.mem_cons, List.mem_append] at he
+      rcases he with rfl | he | he
+      · exact h.1.1.1
+      · exact h1 e he
+      · exact h2 e he
+  | .switch x cases none, h => by
+      simp only [stmtParenFree, Bool.and_eq_true] at h
+      have h1 := casesRoots_parenFree cases h.2
+      intro e he; simp only [stmtRoots, List.mem_cons] at he
+      rcases he with rfl | he
+      · exact h.1.1
+      · exact h1 e he
+  | .switch x cases (some d), h => by
+      simp only [stmtParenFree, Bool.and_eq_true] at h
+      have h1 := casesRoots_parenFree cases h.1.2
+      have h2 := stmtsRoots_parenFree d h.2
+      intro e he; simp only [stmtRoots, List.mem_cons, List.mem_append] at he
+      rcases he with rfl | he | he
+      · exact h.1.1.1
+      · exact h1 e he
+      · exact h2 e he
+  | .tswitch _ x cases none, h => by
+      simp only [stmtParenFree, Bool.and_eq_true] at h
+      have h1 := tcasesRoots_parenFree cases h.2
+      intro e he; simp only [stmtRoots, List.mem_cons] at he
+      rcases he with rfl | he
+      · exact h.1.1.2
+      · exact h1 e he
+  | .tswitch _ x cases (some d), h => by
+      simp only [stmtParenFree, Bool.and_eq_true] at h
+      have h1 := tcasesRoots_parenFree cases h.1.2
+      have h2 := stmtsRoots_parenFree d h.2
+      intro e he; simp only [stmtRoots, List.mem_cons, List.mem_append] at he
+      rcases he with rfl | he | he
+      · exact h.1.1.1.2
+      · exact h1 e he
+      · exact h2 e he
+theorem stmtsRoots_parenFree : ∀ ss : List GStmt, stmtsParenFree ss = true → ∀ e ∈ stmtsRoots ss, exprParenFree e = true
+  | [], _ => by simp [stmtsRoots]
+  | s :: ss, h => by
+      simp only [stmtsParenFree, Bool.and_eq_true] at h
+      have h1 := stmtRoots_parenFree s h.1
+      have h2 := stmtsRoots_parenFree ss h.2
+      intro e he; simp only [stmtsRoots, List.mem_append] at he
+      rcases he with he | he
+      · exact h1 e he
+      · exact h2 e he
+theorem casesRoots_parenFree : ∀ cs : List GCase, casesParenFree cs = true → ∀ e ∈ casesRoots cs, exprParenFree e = true
+  | [], _ => by simp [casesRoots]
+  | .mk v body :: cs, h => by
+      simp only [casesParenFree, Bool.and_eq_true] at h
+      have h1 := stmtsRoots_parenFree body h.1.2
+      have h2 := casesRoots_parenFree cs h.2
+      intro e he; simp only [casesRoots, List.mem_cons, List.mem_append] at he
+      rcases he with rfl | he | he
+      · exact h.1.1
+      · exact h1 e he
+      · exact h2 e he
+theorem tcasesRoots_parenFree : ∀ cs : List GTCase, tcasesParenFree cs = true → ∀ e ∈ tcasesRoots cs, exprParenFree e = true
+  | [], _ => by simp [tcasesRoots]
+  | .mk _ body :: cs, h => by
+      simp only [tcasesParenFree, Bool.and_eq_true] at h
+      have h1 := stmtsRoots_parenFree body h.1
+      have h2 := tcasesRoots_parenFree cs h.2
+      intro e he; simp only [tcasesRoots, List.mem_append] at he
+      rcases he with he | he
+      · exact h1 e he
+      · exact h2 e he
+end
+
+theorem itemRoots_parenFree (it : GItem) (h : itemParenFree it = true) : ∀ e ∈ itemRoots it, exprParenFree e = true := by
+  cases it with
+  | func f => exact stmtsRoots_parenFree f.body (by simpa [itemParenFree] using h)
+  | structDef n fs ms =>
+    intro e he
+    simp only [itemRoots, List.mem_flatMap] at he
+    obtain ⟨m, hm, he⟩ := he
+    have : stmtsParenFree m.body = true := by
+      simp only [itemParenFree, List.all_eq_true] at h
+      exact h m hm
+    exact stmtsRoots_parenFree m.body this e he
+  | _ => simp [itemRoots]
+
+/-- what the tie's per-item verdict buys: in an item it accepts, every expression a statement holds that lies in
+    the operator subset parses back to itself, keeps its tokens apart, and is not cut by the semicolon rule -/
+theorem item_expressions_roundtrip (it : GItem) (h : itemParenFree it = true) (e : GExpr) (he : e ∈ itemRoots it)
+    (hs : inSubset e = true) :
+    Parse (.bin 1) (exprDoc e).items (.e (erase e)) [] ∧ glueFree (exprDoc e).pieces = true ∧
+      ∀ p, breaksSafe p (exprDoc e).items = true :=
+  have hp := itemRoots_parenFree it h e he
+  ⟨print_expr_roundtrip_whole e hs hp, glue_free_expr e hs hp, no_break_inserts_semicolon e hp⟩
+
 /-! ## non-vacuity -/
 
 section Examples
